@@ -1862,7 +1862,7 @@ func runC20(tier string, seed int64, outdir string, replay string) error {
 			c20Scripted(cat(one(St(0, 0)), rep(S(0), 9), one(Rs(0)), one(St(1, 0)))), map[string]any{"witness": "ca-reinstalled-single-instance"}); err != nil {
 			return err
 		}
-		// f8c5e31: two issuances hold the account the CA forgot; the second used to delete the account the
+		// f0aaa6b: two issuances hold the account the CA forgot; the second used to delete the account the
 		// first had just recreated and to register a third; now it finds the new account under the lock
 		stale2 := cat(one(St(0, 0)), rep(S(0), 9), one(St(1, 0)), rep(S(1), 2), one(St(2, 0)), rep(S(2), 2), one(Rs(0)))
 		if err := addHist("concurrent-recreate", email, []int{0, 0, 0},
